@@ -109,7 +109,8 @@ def main():
                 dst = os.path.join(VERIF, "seeded", name)
                 os.makedirs(dst, exist_ok=True)
                 for f in ("patch.diff", "demo.py"):
-                    shutil.copy(os.path.join(src, f), os.path.join(dst, f))
+                    if os.path.abspath(os.path.join(src, f)) != os.path.abspath(os.path.join(dst, f)):
+                        shutil.copy(os.path.join(src, f), os.path.join(dst, f))
                 meta = json.load(open(os.path.join(src, "meta.json")))
                 prev = {}
                 if os.path.exists(os.path.join(dst, "meta.json")):
